@@ -107,6 +107,12 @@ class Normaliser:
         self.rules = {}
         self.pending_rules = list(rules)
         self.rule_polys = {}
+        self.alias_polys = {}
+        self.pending_alias = []
+
+    def add_alias(self, var, repl):
+        """var -> repl (justified by an assumed equality var == repl that is part of the query)."""
+        self.pending_alias.append((var, repl))
 
     def _install_rules(self):
         pending, self.pending_rules = self.pending_rules, []
@@ -118,11 +124,20 @@ class Normaliser:
             if d != p_const(1):
                 raise HarnessError("rewrite rule with a denominator")
             self.rule_polys[i] = n
+        pend, self.pending_alias = self.pending_alias, []
+        for var, repl in pend:
+            v = var.z3() if isinstance(var, R) else var
+            i = self.atoms.get(v)
+            r = repl.z3() if isinstance(repl, R) else repl
+            n, d = self.ratfun(r, _norules=True)
+            if d != p_const(1):
+                raise HarnessError("alias with a denominator")
+            self.alias_polys[i] = n
         self.cache = {}
 
     # rational function = (num, den) polynomials
     def ratfun(self, t, _norules=False):
-        if self.pending_rules and not _norules:
+        if (self.pending_rules or self.pending_alias) and not _norules:
             self._install_rules()
         k = t.get_id()
         r = self.cache.get(k)
@@ -184,6 +199,23 @@ class Normaliser:
 
     def reduce(self, p):
         """Rewrite every v^k (k >= 2) with a rule v^2 -> repl until none applies."""
+        guard = 0
+        while self.alias_polys and any(a in self.alias_polys for m in p for a, _ in m):
+            guard += 1
+            if guard > 50:
+                raise HarnessError("alias substitution does not terminate")
+            out = {}
+            for m, c in p.items():
+                if not any(a in self.alias_polys for a, _ in m):
+                    out[m] = out.get(m, 0) + c
+                    continue
+                term = {tuple((a, e) for a, e in m if a not in self.alias_polys): c}
+                for a, e in m:
+                    if a in self.alias_polys:
+                        term = p_mul(term, p_pow(self.alias_polys[a], e))
+                for m2, c2 in term.items():
+                    out[m2] = out.get(m2, 0) + c2
+            p = {m: c for m, c in out.items() if c != 0}
         if not self.rule_polys:
             return p
         changed = True
@@ -267,6 +299,7 @@ class Rules:
         self.assumptions = []  # z3 facts that justify the rules (must be part of the pc)
         self.samplers = []  # callables rng -> {z3 const name: Fraction}
         self.unsampled = set()
+        self.aliases = []
 
     def unit_quat(self, q):
         w, x, y, z = q
@@ -314,8 +347,18 @@ class Rules:
         self.samplers.append(samp)
         return self
 
+    def alias(self, var, repl):
+        """var -> repl everywhere; the equality var == repl becomes an assumption of the query."""
+        self.aliases.append((var, repl))
+        self.assumptions.append((R(var) == R(repl)).z3())
+        self.unsampled.add(str(R(var).v))
+        return self
+
     def normaliser(self):
-        return Normaliser(self.rules)
+        n = Normaliser(self.rules)
+        for v, r in self.aliases:
+            n.add_alias(v, r)
+        return n
 
 
 def _leaves(t, acc, seen):
